@@ -1,6 +1,7 @@
 import Liquid.Std
 import Proofs.C09
 import Proofs.RepEqRender
+import Proofs.RepEqFilters
 /-!
 # C18 — output depends on a binding's Liquid value, not on its Go representation
 
@@ -229,3 +230,115 @@ example : sprint (.ptr (.int .int 1)) = .unmodelled "fmt: a pointer prints as an
   constructor
   · simp [sprint]
   · rfl
+
+
+/-! # The standard configuration
+
+With `d = false` the equivalence relates typed slices, fixed arrays and typed maps with the
+generic containers of the same contents at every depth, and — through `unwrap` — a binding that is
+a drop (of any depth) or a pointer (not to a struct) with the value it stands for. For this
+relation the standard output layer (`stdOut_respects`), the standard comparisons
+(`opEq_prep_vrel`, `opLt_prep_vrel`, `opContains_prep_vrel`, `equal_prep_repEq`) and every standard
+filter except `sort`, `uniq`, `sort_natural` (`filterRespects_std`) respect it. Drops *inside*
+containers are not covered for the standard configuration: see the counterexamples below. -/
+
+/-- **C18 for the standard configuration** (partial). `allowed` says which filters are registered
+on the engine (`stdPrimsOnly allowed`; with `fun _ => true` it is `stdPrims`). Rendering any
+template against environments whose bindings are representation-equivalent (`ERel false`) gives
+results that agree (`RunAgree true`: the same output or the same error, or one of the two runs is
+outside the model).
+
+Full statement wanted: the same for `stdPrims` and no hypotheses. What is missing:
+* `hsort`, `hnat` — the bodies of `sort` and `sort_natural` are not shown to respect the
+  equivalence (open; they need a congruence for `List.mergeSort`);
+* `huniq` — `uniq` must not be registered: it does *not* respect the equivalence (it compares
+  elements by Go interface equality, which sees the element type of a nested slice; example below);
+* "agree" instead of "equal": a fixed-array needle against an ordered map with a fixed-array key is
+  `unmodelled` (`comparableV`) while the generic slice gives `false` (example below);
+* `d = false`: drops nested in containers are exposed by `fmt.Sprint` (printing a map, a string
+  filter applied to an array), by `uniq`, and a drop that yields a drop by `values.Equal`. -/
+theorem run_std_rep_independent_partial (allowed : Bytes → Bool)
+    (hsort : allowed (ArrF.bn "sort") = true → FilterRespects true (ArrF.bn "sort"))
+    (hnat : allowed (ArrF.bn "sort_natural") = true → FilterRespects true (ArrF.bn "sort_natural"))
+    (huniq : allowed (ArrF.bn "uniq") = false)
+    (cfg : Cfg) (fs : FS) (fuel : Nat) (src : Bytes) (line : Nat) (env env' : Env)
+    (he : ∀ x, ERel false (env.get x) (env'.get x)) :
+    RunAgree true (run (stdPrimsOnly allowed) stdOut cfg fs fuel src line env)
+      (run (stdPrimsOnly allowed) stdOut cfg fs fuel src line env') := by
+  refine run_rel _ _ cfg fs fuel (stdPrimsOnly_respects allowed ?_) (stdOut_respects true) src line he
+  intro n hn ha
+  simp only [openFilters, List.mem_cons, List.not_mem_nil, or_false] at hn
+  rcases hn with rfl | rfl | rfl
+  · exact hsort ha
+  · rw [huniq] at ha; cases ha
+  · exact hnat ha
+
+/-- **C18 for the standard configuration without `sort`, `uniq`, `sort_natural`**: no hypothesis
+left. Every template, every file system and include depth: environments that differ in typed vs
+generic slices, fixed arrays vs slices, typed vs generic maps (at any depth), and in drops and
+pointers around a binding, render to agreeing results. -/
+theorem run_std_core_rep_independent (cfg : Cfg) (fs : FS) (fuel : Nat) (src : Bytes) (line : Nat) (env env' : Env)
+    (he : ∀ x, ERel false (env.get x) (env'.get x)) :
+    RunAgree true (run (stdPrimsOnly coreFilters) stdOut cfg fs fuel src line env)
+      (run (stdPrimsOnly coreFilters) stdOut cfg fs fuel src line env') :=
+  run_std_rep_independent_partial coreFilters
+    (fun h => absurd h (by decide +kernel)) (fun h => absurd h (by decide +kernel))
+    (by decide +kernel) cfg fs fuel src line env env' he
+
+/-- the hypotheses on the environments are satisfiable: `x` bound to a drop of a pointer to a typed
+    slice of fixed arrays, against the generic slice of generic slices -/
+example : ∀ y, ERel false
+    (Env.get [([120], .drop (.ptr (.slice (.arr (.int .int)) [.array (.int .int) [.int .int 1]])))] y)
+    (Env.get [([120], .slice .any [.slice .any [.int .int 1]])] y) := by
+  intro y
+  by_cases h : y = [120]
+  · subst h
+    exact binding_related_of_unwrap (by simp [Env.get, RepEq, unwrap, norm, normList])
+      (by simp [Env.get, isRec, cyclesOf]) (by simp [Env.get, isRec, cyclesOf])
+  · have : ([120] == y) = false := by simp [Ne.symm h]
+    simp [Env.get, List.find?, this, ERel.refl]
+
+/-- a filter with scalar parameters (`append`: `string, string`) respects the equivalence
+    whatever its body -/
+example : FilterRespects false (ArrF.bn "append") :=
+  filterRespects_of_scalar false _ (fun sg h => by
+    have : lookupSig (ArrF.bn "append") = some ⟨ArrF.bn "append", [.val .str, .val .str], false⟩ := by decide +kernel
+    rw [this] at h; cases h; rfl)
+
+/-! ## What the standard configuration forces (counterexamples; each is a place where the real
+code distinguishes representations that C18 declares equivalent) -/
+
+/-- *`uniq` sees the element type of nested slices.* Template `{{ a | uniq | size }}` with
+`a = []any{[]int{1}, []any{1}}` gives 2, with `a = []any{[]any{1}, []any{1}}` gives 1
+(`uniqFilter` compares with `==` / `reflect.DeepEqual`: same dynamic type and contents). -/
+example : lenOfRes (stdPrims.applyFilter (ArrF.bn "uniq") (.slice .any [.slice (.int .int) [.int .int 1], .slice .any [.int .int 1]]) []) = 2 ∧
+    lenOfRes (stdPrims.applyFilter (ArrF.bn "uniq") (.slice .any [.slice .any [.int .int 1], .slice .any [.int .int 1]]) []) = 1 := by
+  decide +kernel
+
+/-- *`fmt.Sprint` shows a drop inside a map.* Template `{{ m }}` with `m = map[string]any{"a": Drop{1}}`
+prints `map[a:{1}]`, with `m = map[string]any{"a": 1}` it prints `map[a:1]`. -/
+example : stdChunks (.map .str .any [(.str [97], .drop (.int .int 1))]) = .ok [[109, 97, 112, 91, 97, 58, 123, 49, 125, 93]] ∧
+    stdChunks (.map .str .any [(.str [97], .int .int 1)]) = .ok [[109, 97, 112, 91, 97, 58, 49, 93]] := by
+  decide +kernel
+
+/-- *A string filter applied to an array shows the drops in it.* Template `{{ a | append: "" }}` with
+`a = []any{Drop{1}}` gives `[{1}]`, with `a = []any{1}` it gives `[1]` (`Convert(·, string)` is
+`fmt.Sprint` after one `ToLiquid` of the array itself). -/
+example : strOfRes (stdPrims.applyFilter (ArrF.bn "append") (.slice .any [.drop (.int .int 1)]) [.str []]) = [91, 123, 49, 125, 93] ∧
+    strOfRes (stdPrims.applyFilter (ArrF.bn "append") (.slice .any [.int .int 1]) [.str []]) = [91, 49, 93] := by
+  decide +kernel
+
+/-- *A drop that yields a drop, inside an array, is not its final value for `values.Equal`*
+(`ToLiquid` is applied once per element). Template `{% case a %}{% when b %}eq{% endcase %}` with
+`a = []any{DropOf(DropOf(1))}`, `b = []any{1}` does not print `eq`; with `a = []any{1}` it does. -/
+example : stdPrims.equalFn (.slice .any [.drop (.drop (.int .int 1))]) (.slice .any [.int .int 1]) ≠ .ok true ∧
+    stdPrims.equalFn (.slice .any [.int .int 1]) (.slice .any [.int .int 1]) = .ok true := by
+  decide +kernel
+
+/-- *A fixed array is comparable in Go, a slice is not.* `m contains x` for an ordered map `m` with
+the key `[1]int{1}`: with `x = [1]int{1}` the model makes no claim (`==` on arrays: `unmodelled`; in
+Go the comparison succeeds), with `x = []int{1}` it is false. Hence "agree" (`RunAgree true`). -/
+example : stdPrims.contains (.mapSlice [(.array (.int .int) [.int .int 1], .nil)]) (.array (.int .int) [.int .int 1])
+      = .unmodelled "comparability of an array value" ∧
+    stdPrims.contains (.mapSlice [(.array (.int .int) [.int .int 1], .nil)]) (.slice (.int .int) [.int .int 1]) = .ok false := by
+  decide +kernel
